@@ -28,11 +28,112 @@ func (p *Prog) dispatchTable(fn *ssa.Function) (map[string]map[string]*dispEntry
 	if !ok || len(ops) < 15 {
 		return nil, fmt.Errorf("Operator/TSTR constants not found")
 	}
+	isLeftRT := func(v ssa.Value) bool {
+		call, ok := v.(*ssa.Call)
+		return ok && call.Call.IsInvoke() && call.Call.Method.Name() == "ReturnType" &&
+			p.derivesFromField(call.Call.Value, "BinaryOpExpr", "Left", traceOpts{})
+	}
+	// the helper call returned by f on the paths that can be taken when `know` decides the branch conditions;
+	// isClass tells which values carry "the static type of the left operand"
+	var resolve func(f *ssa.Function, name, cls string, know func(a Atom) (bool, bool), isClass func(ssa.Value) bool, depth int) (*dispEntry, error)
+	resolve = func(f *ssa.Function, name, cls string, know func(a Atom) (bool, bool), isClass func(ssa.Value) bool, depth int) (*dispEntry, error) {
+		reach := walkAssuming(f, decideAtoms(know))
+		var entry *dispEntry
+		unhandled := false
+		for _, b := range orderedBlocks(f, reach) {
+			ret := retOf(b)
+			if ret == nil {
+				continue
+			}
+			var c *ssa.Call
+			switch x := retVal(ret, 0).(type) {
+			case *ssa.Extract:
+				c, _ = x.Tuple.(*ssa.Call)
+			case *ssa.MakeInterface:
+				if ex, ok := x.X.(*ssa.Extract); ok {
+					c, _ = ex.Tuple.(*ssa.Call)
+				}
+			}
+			if c == nil || c.Call.StaticCallee() == nil || c.Call.StaticCallee().Signature.Recv() == nil {
+				unhandled = true
+				continue
+			}
+			e := &dispEntry{Callee: c.Call.StaticCallee(), Call: c}
+			classArg := -1
+			for k, a := range c.Call.Args {
+				if s, ok := constString(a); ok {
+					e.Consts = append(e.Consts, "s:"+s)
+				} else if bv, ok := constBool(a); ok {
+					e.Consts = append(e.Consts, fmt.Sprintf("bool:%v", bv))
+				} else if iv, ok := constInt(a); ok {
+					e.Consts = append(e.Consts, fmt.Sprintf("b:%c", rune(iv)))
+				} else if bo, ok := a.(*ssa.BinOp); ok && (bo.Op == token.EQL || bo.Op == token.NEQ) && isClass(bo.X) {
+					// a class flag computed once (`isNumber := leftTp != TSTR`): its value under this class
+					if cv, ok := constInt(bo.Y); ok && cv == tstr {
+						e.Consts = append(e.Consts, fmt.Sprintf("bool:%v", (cls == "str") == (bo.Op == token.EQL)))
+					}
+				} else if isClass(a) {
+					classArg = k
+				}
+			}
+			// the helper may itself only dispatch on the class it is handed (`e.execOrderCompare(kv, leftTp, ">", ctx)`)
+			if classArg >= 0 && depth < 2 {
+				g := c.Call.StaticCallee()
+				if p.InPkg(g) && len(g.Blocks) > 0 && classArg < len(g.Params) {
+					cp := ssa.Value(g.Params[classArg])
+					inner, err := resolve(g, name, cls, func(a Atom) (bool, bool) {
+						if a.Op != token.EQL && a.Op != token.NEQ {
+							return false, false
+						}
+						if cv, isC := constInt(a.Y); isC && a.X == cp && cv == tstr {
+							return true, (cls == "str") == (a.Op == token.EQL)
+						}
+						return false, false
+					}, func(v ssa.Value) bool { return v == cp }, depth+1)
+					if err != nil {
+						return nil, err
+					}
+					if inner != nil {
+						e2 := &dispEntry{Callee: inner.Callee, Call: c}
+						// literals: the inner call's own constants, and parameters of g replaced by the outer arguments
+						for _, ia := range inner.Call.Call.Args {
+							var src ssa.Value = ia
+							if pa, ok := ia.(*ssa.Parameter); ok {
+								for k2, gp := range g.Params {
+									if gp == pa && k2 < len(c.Call.Args) {
+										src = c.Call.Args[k2]
+									}
+								}
+							}
+							if s, ok := constString(src); ok {
+								e2.Consts = append(e2.Consts, "s:"+s)
+							} else if bv, ok := constBool(src); ok {
+								e2.Consts = append(e2.Consts, fmt.Sprintf("bool:%v", bv))
+							} else if iv, ok := constInt(src); ok {
+								e2.Consts = append(e2.Consts, fmt.Sprintf("b:%c", rune(iv)))
+							}
+						}
+						e = e2
+					}
+				}
+			}
+			if entry != nil && entry.Callee != e.Callee {
+				return nil, fmt.Errorf("operator %s/%s reaches two helpers", name, cls)
+			}
+			entry = e
+		}
+		if entry != nil && unhandled {
+			// both a helper return and the unknown-operator return are reachable: the walk could not decide
+			entry = nil
+		}
+		return entry, nil
+	}
 	out := map[string]map[string]*dispEntry{}
 	for v, name := range ops {
 		out[name] = map[string]*dispEntry{}
 		for _, cls := range []string{"str", "num"} {
-			reach := walkAssuming(fn, decideAtoms(func(a Atom) (bool, bool) {
+			v, cls := v, cls
+			entry, err := resolve(fn, name, cls, func(a Atom) (bool, bool) {
 				if a.Op != token.EQL && a.Op != token.NEQ {
 					return false, false
 				}
@@ -43,50 +144,13 @@ func (p *Prog) dispatchTable(fn *ssa.Function) (map[string]map[string]*dispEntry
 				if isFieldLoad(a.X, "BinaryOpExpr", "Op") {
 					return true, (c == v) == (a.Op == token.EQL)
 				}
-				if call, ok := a.X.(*ssa.Call); ok && call.Call.IsInvoke() && call.Call.Method.Name() == "ReturnType" &&
-					p.derivesFromField(call.Call.Value, "BinaryOpExpr", "Left", traceOpts{}) && c == tstr {
+				if isLeftRT(a.X) && c == tstr {
 					return true, (cls == "str") == (a.Op == token.EQL)
 				}
 				return false, false
-			}))
-			var entry *dispEntry
-			unhandled := false
-			for _, b := range orderedBlocks(fn, reach) {
-				ret := retOf(b)
-				if ret == nil {
-					continue
-				}
-				var c *ssa.Call
-				switch x := retVal(ret, 0).(type) {
-				case *ssa.Extract:
-					c, _ = x.Tuple.(*ssa.Call)
-				case *ssa.MakeInterface:
-					if ex, ok := x.X.(*ssa.Extract); ok {
-						c, _ = ex.Tuple.(*ssa.Call)
-					}
-				}
-				if c == nil || c.Call.StaticCallee() == nil || c.Call.StaticCallee().Signature.Recv() == nil {
-					unhandled = true
-					continue
-				}
-				e := &dispEntry{Callee: c.Call.StaticCallee(), Call: c}
-				for _, a := range c.Call.Args {
-					if s, ok := constString(a); ok {
-						e.Consts = append(e.Consts, "s:"+s)
-					} else if bv, ok := constBool(a); ok {
-						e.Consts = append(e.Consts, fmt.Sprintf("bool:%v", bv))
-					} else if iv, ok := constInt(a); ok {
-						e.Consts = append(e.Consts, fmt.Sprintf("b:%c", rune(iv)))
-					}
-				}
-				if entry != nil && entry.Callee != e.Callee {
-					return nil, fmt.Errorf("operator %s/%s reaches two helpers", name, cls)
-				}
-				entry = e
-			}
-			if entry != nil && unhandled {
-				// both a helper return and the unknown-operator return are reachable: the walk could not decide
-				entry = nil
+			}, isLeftRT, 0)
+			if err != nil {
+				return nil, err
 			}
 			out[name][cls] = entry
 		}
